@@ -346,6 +346,33 @@ def prologue (saved : List Reg) : List Instr :=
 def epilogue (saved : List Reg) : List Instr :=
   frameLoads saved 0 ++ [.i .addi SP SP ((4 * saved.length : Nat) : Int)]
 
+/-! ### riscv_cf: `ElideConstantBranches` and `const_evaluate` (xdsl/dialects/riscv_cf.py) -/
+
+/-- `to_unsigned(x, 32)` of xdsl/utils/comparisons.py -/
+def toUnsigned32 (x : Int) : Int := (x + 4294967296) % 4294967296
+
+/-- `to_signed(x, 32)` -/
+def toSigned32 (x : Int) : Int := (x + 2147483648) % 4294967296 - 2147483648
+
+/-- `const_evaluate(rs1, rs2, 32)` of the six conditional branch classes -/
+def constEvaluate (op : BOp) (a b : Int) : Bool :=
+  match op with
+  | .beq => decide (toUnsigned32 a = toUnsigned32 b)
+  | .bne => !decide (toUnsigned32 a = toUnsigned32 b)
+  | .blt => decide (toSigned32 a < toSigned32 b)
+  | .bge => decide (toSigned32 b ≤ toSigned32 a)
+  | .bltu => decide (toUnsigned32 a < toUnsigned32 b)
+  | .bgeu => decide (toUnsigned32 b ≤ toUnsigned32 a)
+
+/-- `ElideConstantBranches`: a conditional branch whose operands are both known constants becomes an
+unconditional jump to the then-block or falls through (`riscv_cf.branch`, which prints nothing) -/
+def elideConstantBranch (fs : List Fact) : Instr → Option Instr
+  | .br op a b t =>
+    match constOf fs a, constOf fs b with
+    | some x, some y => some (if constEvaluate op x y then .j t else .nop)
+    | _, _ => none
+  | _ => none
+
 /-! ### protocol -/
 
 def parseFact (t : String) : Option Fact :=
@@ -374,6 +401,10 @@ def rulesLineStep (_ : Unit) (line : String) : Unit × String :=
       match regs.mapM parseNat? with
       | some rs => ((), showInstrs (prologue rs) ++ " | " ++ showInstrs (epilogue rs))
       | none => bad
+    | ["cbr", op, a, b] =>
+      match bop? op, parseInt? a, parseInt? b with
+      | some o, some x, some y => ((), if constEvaluate o x y then "taken" else "fall")
+      | _, _, _ => bad
     | ["cmpi", p, rd, t, a, b] =>
       match parseNat? p, parseNat? rd, parseNat? t, parseNat? a, parseNat? b with
       | some p, some rd, some t, some a, some b =>
